@@ -2,7 +2,8 @@
     Partial: exact relation, special soundness, transcript binding and blind-signature correctness
     are proved; the rewinding step to "no efficient prover" is not formalised (DESIGN.md section 6). *)
 From ZK Require Import Model.Field Model.Zq Model.QBls Model.Pedersen Model.PS Model.Schnorr Model.Range
-  Model.Abacus Proofs.PSProofs Proofs.SchnorrProofs Proofs.EstablishProofs Proofs.ChallengeProofs.
+  Model.Abacus Model.Pinned Proofs.PSProofs Proofs.SchnorrProofs Proofs.EstablishProofs Proofs.ChallengeProofs
+  Proofs.PinnedProofs.
 Local Open Scope fld_scope.
 
 (** the merchant accepts exactly the two Schnorr relations and the eight response-scalar equations,
@@ -61,6 +62,17 @@ Theorem C01_honest_proof_accepted : forall (K : Fld) (close_tag : K) (chal : lis
   = Some (blind pk (state_msg cid nonce lock cb mb) bfs, blind pk (close_msg close_tag cid lock cb mb) bfc).
 Proof. exact establish_fiat_shamir_complete. Qed.
 
+(** REFUTATION of the pinned code (D1, repaired by /repo commit e01599f): when the four revealed commitment scalars are
+    not hashed, every self-consistent hidden (state, close state) pair - any balances, any channel id, anything in the
+    close-tag slot - is accepted for any agreed values, for every hash function *)
+Theorem C01_pinned_establish_forgery_refuted : forall (K : Fld) (close_tag : K) (chal : list (atom K) -> K) (pk : pkey K)
+    cid cb mb m0 m1 m2 m3 m4 c1 bfs kbfs k0 k1 k2 k3 k4 bfc kbfc kc1 ctx,
+  let ms := [m0; m1; m2; m3; m4] in let mc := [m0; c1; m2; m3; m4] in
+  let ks := [k0; k1; k2; k3; k4] in let kc := [k0; kc1; k2; k3; k4] in
+  establish_verify_pinned close_tag chal pk cid cb mb (forge close_tag chal pk cid cb mb ms mc bfs kbfs ks bfc kbfc kc ctx) ctx
+  = Some (blind pk ms bfs, blind pk mc bfc).
+Proof. exact pinned_establish_forgery. Qed.
+
 Example C01_nonvacuous :
   let kp := keygen (fq 11) (fq 17) [fq 19; fq 23; fq 29; fq 31; fq 37] (fq 13) in
   let p := establish_prove_with (fq 77) (snd kp) (fq 5) (fq 6) (fq 7) (fq 10) (fq 1000) (fq 41) (fq 43)
@@ -76,4 +88,5 @@ Print Assumptions C01_establish_transcript_binds.
 Print Assumptions C01_establish_then_sign.
 Print Assumptions C01_signature_on_no_other_slot.
 Print Assumptions C01_honest_proof_accepted.
+Print Assumptions C01_pinned_establish_forgery_refuted.
 Print Assumptions C01_nonvacuous.
